@@ -3,14 +3,38 @@ Correspondence: generate_hilbert_space / subspace_vector / _convert_basis_elemen
 Coq model (Bits.v mirrors the code's bit arithmetic; theorems tie it to the structural enumeration).
 Oracle: itertools.product enumeration; big-endian expansion; idx round trips; psi/rho array positions via
 one-hot probes; size guard; extract_refbasis_samples vs an independent filter; data loaders vs an independent
-parser of files written by the harness (loader clause is correspondence-only, not modelled)."""
+parser of files written by the harness (loader clause is correspondence-only, not modelled).
+Histories (seed round 3): every operation above is also evaluated repeatedly on the SAME objects with legal changes in
+between (see the block "HISTORIES" below); the oracle after every step is the one used for a fresh object."""
 import itertools, os
 import numpy as np
 
 RULE = ("sizes n=1..10 exhaustively (thorough: ..12), sampled indices for n up to 20; random data files (N, n, basis "
         "alphabet, complex targets); a case is (function, n, index-or-file); non-trivial := n >= 2 and the index has "
-        "both 0 and 1 bits (asymmetric expansion) or the file has >= 2 rows with distinct content")
-ASSUMPTIONS = ["np.loadtxt / file system behave as documented (loader clause is correspondence-only)"]
+        "both 0 and 1 bits (asymmetric expansion) or the file has >= 2 rows with distinct content; "
+        "HISTORIES on the same objects (fixed ones first, never cut by a budget; then 150 / 1500 random ones from the seed, time-boxed): "
+        "evaluate (generate_hilbert_space in the call forms default / size= / positional / device=, subspace_vector, "
+        "_convert_basis_element_to_index, psi / rho tables of the full space, rotate_psi / rotate_rho / rotate_psi_inner_prod / rotate_rho_probs "
+        "of explicit arrays, the size guard, the loaders, extract_refbasis_samples) -> a legal change -> evaluate again, the changes being: "
+        "in-place edits of a tensor the library RETURNED earlier (mul_(2).sub_(1), sample(k, initial_state=t, overwrite=True), zero_, fill_, "
+        "copy_ of random bits, reversed rows / sites, one flipped row, two swapped rows, add_, t_(), resize_(0)); buffers the caller PASSED "
+        "earlier refilled with copy_ and passed again; reinitialize_parameters, rbm.initialize_parameters, a rebound weights Parameter, "
+        ".data = new, .data.copy_, copy_ under no_grad, load_state_dict, save + load(path), a one-epoch fit, the device setter, both networks "
+        "replaced (same / other num_visible); the unitary dictionary edited in place / a key rebound / replaced; tables of several sizes "
+        "alive at once and the same size requested on another device (meta) in between; a FRESH state of the same class after another "
+        "state's table was edited; the size limit of a subclass lowered / raised between calls, a refused request repeated, a table another "
+        "state was allowed to build; data files rewritten at the same paths (also with identical byte size and the old mtime restored) and "
+        "loader results edited in place before loading again; samples / bases arrays refilled in place between two extractions; "
+        "results returned earlier and not touched by the caller must still hold what was returned. "
+        "A history is non-trivial when n >= 2 and at least one change happened before the evaluation")
+ASSUMPTIONS = ["np.loadtxt / file system behave as documented (loader clause is correspondence-only)",
+               "after BOTH networks of a state were replaced by ones of ANOTHER num_visible only explicit size= forms are demanded: the states copy "
+               "num_visible into an attribute of their own at construction, so on the unchanged library generate_hilbert_space() follows the new "
+               "network while subspace_vector(k) keeps the old width (histogram 'default widths after replacement ...'; the documented use "
+               "keeps the parameter shapes)",
+               "calls with float32 basis vectors and calls on the 'meta' device are only INTERVENING steps of a history (counted, never required)",
+               "whether two calls return the same tensor object is only counted; what is required is that every returned table is right when "
+               "it is returned and that a result the caller has not touched is not altered by a later library call"]
 
 
 def bigendian(n, k):
@@ -149,6 +173,14 @@ class Session:
             snap = t.detach().clone()
         except Exception:
             return
+        prev = self.snap.get(id(t))
+        if prev is not None and any(x[1] is t for x in self.live):
+            # the library handed out the very object it returned earlier (untouched by the caller since): fine as long as the
+            # earlier result was not overwritten by that
+            same = tuple(prev.shape) == tuple(snap.shape) and bool((prev == snap).all())
+            self.ctx.require("history: a result the library returned earlier, untouched by the caller, still holds what was returned",
+                             same, self.case("earlier results (history)", result=label, returned_again=True),
+                             {"now": snap.reshape(-1)[:8].tolist(), "returned": prev.reshape(-1)[:8].tolist()})
         self.live.append((label, t, what))
         self.snap[id(t)] = snap               # what the library returned; dropped as soon as the caller edits the tensor
         if len(self.live) > 12:
@@ -316,6 +348,8 @@ class Session:
         """the library's table of the state's own size (an independent one if that is wrong - reported by ev_space)"""
         import torch
         kw = {"size": self.n} if self.explicit_only else {}
+        if self.n > int(self.st.max_size):        # the state's own size is beyond its current limit: nothing to ask the library for
+            return torch.tensor(np_space(self.n), dtype=torch.double)
         ok, sp = self.ctx.call("generate_hilbert_space (history)", c, self.st.generate_hilbert_space, **kw)
         if not ok or not bits_ok(sp, self.n)[0]:
             sp = torch.tensor(np_space(self.n), dtype=torch.double)
@@ -418,6 +452,7 @@ class Session:
         ctx.case(c, nontrivial=(n >= 2 and basis != basis[::-1]))
         ctx.count("history eval:rotate")
         sp = self.full_space(c)
+        fast = sum(ch != "Z" for ch in basis) <= int(st.max_size)     # the fast path enumerates the rotated sites: subject to the limit
         if self.kind != "DensityMatrix":
             want = dense @ vec
             tol = 1e-9 * float(np.abs(want).max())
@@ -427,7 +462,7 @@ class Session:
                 ctx.require("history: rotate_psi of an explicit array == dense Kronecker product (site 0 leftmost) applied to it",
                             got.shape == want.shape and bool(np.abs(got - want).max() <= tol), c)
                 self.keep("rotated psi", out, "table")
-            ok, out = ctx.call("rotate_psi_inner_prod (history)", c, U.rotate_psi_inner_prod, st, basis, sts, psi=arr)
+            ok, out = ctx.call("rotate_psi_inner_prod (history)", c, U.rotate_psi_inner_prod, st, basis, sts, psi=arr) if fast else (False, None)
             if ok:
                 got = out.detach().numpy()[0] + 1j * out.detach().numpy()[1]
                 ctx.require("history: rotate_psi_inner_prod picks entry idx(state) of the dense rotation",
@@ -441,7 +476,7 @@ class Session:
                 ctx.require("history: rotate_rho of an explicit array == dense Kronecker conjugation (site 0 leftmost)",
                             got.shape == want.shape and bool(np.abs(got - want).max() <= tol), c)
                 self.keep("rotated rho", out, "table")
-            ok, out = ctx.call("rotate_rho_probs (history)", c, U.rotate_rho_probs, st, basis, sts, rho=rarr)
+            ok, out = ctx.call("rotate_rho_probs (history)", c, U.rotate_rho_probs, st, basis, sts, rho=rarr) if fast else (False, None)
             if ok:
                 got = out.detach().numpy()
                 w = np.real(np.diag(want))[ks]
@@ -1150,8 +1185,9 @@ def run(ctx):
         ctx.require("real part without imaginary part is refused", rej, {"fn": "load_data_DM", "only_real": True})
     # ---- histories from the seed (time-boxed; the fixed ones above always run)
     loader_histories(ctx, 12 if ctx.thorough else 3)
-    random_histories(ctx, 400 if ctx.thorough else 60, 240.0 if ctx.thorough else 25.0)
-    ctx.traces += ctx.evaluations
+    random_histories(ctx, 1500 if ctx.thorough else 150, 240.0 if ctx.thorough else 25.0)
+    ctx.hist["histories (same-object traces)"] = ctx.traces
+    ctx.traces = ctx.evaluations
 
 
 def replay(ctx, rec):
